@@ -192,16 +192,20 @@ class Chooser:
         return c
 
 
-def explore(run, bound=None, merge=True, on_exec=None, max_exec=None):
+def explore(run, bound=None, merge=True, on_exec=None, max_exec=None, root_prefix=None, dev_shard=None):
     """Depth-first enumeration of every choice sequence of `run(chooser)`.
 
     bound: maximum total deviation cost (None = unbounded).
     merge: enable state merging through `key=` at choice points.
     Returns dict(executions, pruned, points, states, capped).
     """
+    # root_prefix: explore only below this choice prefix; dev_shard=(k, K): of the executions'
+    # first deviations, only those at positions i with i % K == k are expanded (sharding a
+    # deviation-bounded search over several workers: the union over k is the whole space).
     seen = set() if merge else None
     stats = dict(executions=0, pruned=0, points=0, states=0, capped=False)
-    stack = [[]]
+    root = list(root_prefix or [])
+    stack = [root]
     while stack:
         prefix = stack.pop()
         ch = Chooser(prefix, seen)
@@ -227,11 +231,13 @@ def explore(run, bound=None, merge=True, on_exec=None, max_exec=None):
             pre.append(cost)
             cs = ch.costs[i]
             cost += (cs[c] if cs else (0 if c == 0 else 1))
-        for i in range(len(ch.choices) - 1, len(prefix) - 1, -1):
+        for i in range(len(ch.choices) - 1, max(len(prefix), len(root)) - 1, -1):
             cs = ch.costs[i]
             for alt in range(ch.widths[i] - 1, 0, -1):
                 ac = cs[alt] if cs else 1
                 if bound is not None and pre[i] + ac > bound:
+                    continue
+                if dev_shard is not None and pre[i] == 0 and ac > 0 and i % dev_shard[1] != dev_shard[0]:
                     continue
                 stack.append(ch.choices[:i] + [alt])
     stats["states"] = len(seen) if seen is not None else 0
